@@ -333,6 +333,12 @@ func (e *ListExpr) Check(ctx *CheckCtx) error {
 }
 
 func (e *FieldAccessExpr) Check(ctx *CheckCtx) error {
+	if err := e.Left.Check(ctx); err != nil {
+		return err
+	}
+	if err := e.FieldName.Check(ctx); err != nil {
+		return err
+	}
 	_, leftIsFAE := e.Left.(*FieldAccessExpr)
 	lrType := e.Left.ReturnType()
 	switch lrType {
